@@ -3,7 +3,9 @@
 Finite property, decided completely in exact rational arithmetic:
   tables  (2 cases)   the two rotation tables: integer entries, rank 14 over Q, pairwise orthogonal
                       rows, every row = the documented flavour content of its label, label <-> pid
-                      tables follow the documented numbering, sector tables name members of the basis
+                      tables follow the documented numbering, sector tables name members of the basis;
+                      non-singlet sector codes, sector label tuples, matching pids 90/91 (QCD case);
+                      intrinsic_unified_evol_labels(nf), nf 3-6 (QED case)
   sector  (124 cases) nf 3-6 x {QCD: 7 sectors, QED: 24 sectors}: the map returned by
                       ad_projector(label, nf, qed), acting on row vectors, sends every source
                       distribution of the sector onto its target and every other distribution of the
@@ -29,12 +31,14 @@ LEVEL_TEXT = (
 LEVEL_NOTE = (
     "trusts the definitions in vf/ref/c31_bases.py (self-checked at import: 14 independent, pairwise "
     "orthogonal rows for every nf, special cases typed twice); floats returned by eko are identified with "
-    "the unique rational of denominator <= 10^4 within 1e-12; for QED with nf=3,5 either reading of "
-    "Sigma_Delta (documented nd/nu-weighted, or the nf=6 row cut to the active flavours) is accepted"
+    "the unique rational of denominator <= 10^4 within 1e-12; for QED with nf=3,5 only the documented "
+    "nd/nu-weighted Sigma_Delta / V_Delta (orthogonal to Sigma / V on the active flavours) is accepted"
 )
 FLOOR_NONTRIVIAL = 20
 
 NFS = [3, 4, 5, 6]
+# codes of the non-singlet sectors (eko.basis_rotation docstrings / comments), typed here
+NS_PIDS = {"ns-": 10201, "ns+": 10101, "nsV": 10200, "ns-u": 10202, "ns-d": 10203, "ns+u": 10102, "ns+d": 10103}
 
 
 def _tag(qed):
@@ -46,9 +50,8 @@ def _families(nf, qed, order):
     fams = []
     labs, rows = B.basis_matrix(nf, qed, order, "doc")
     fams.append(("doc", labs, rows))
-    if qed and nf in (3, 5):
-        labs2, rows2 = B.basis_matrix(nf, qed, order, "table")
-        fams.append(("table", labs2, rows2))
+    # the alternative 'cut table' reading of Sigma_Delta / V_Delta (QED, nf=3,5) is no longer accepted: every map
+    # of the unchanged tree satisfies the documented (nd/nu-weighted, orthogonal to Sigma) reading on its own
     return fams
 
 
@@ -173,6 +176,46 @@ def _eval_tables(case):
             res.fail(f"{sig}/sector-members", f"sector {lab}: {got} expected {members}")
     if not qed and tuple(br.anomalous_dimensions_basis) != tuple(br.full_labels):
         res.fail(f"{sig}/anomalous_dimensions_basis", f"{br.anomalous_dimensions_basis}")
+    # non-singlet sector codes (docstrings of eko.basis_rotation; typed here a second time)
+    if not qed:
+        got_map = dict(getattr(br, "non_singlet_pids_map", {}))
+        if got_map != NS_PIDS:
+            res.fail("tables/non_singlet_pids_map", f"non_singlet_pids_map={got_map} expected {NS_PIDS}")
+        lab_tabs = {
+            "singlet_labels": [(100, 100), (100, 21), (21, 100), (21, 21)],
+            "non_singlet_labels": [(10201, 0), (10101, 0), (10200, 0)],
+            "singlet_unified_labels": [(a, b) for a in (21, 22, 100, 101) for b in (21, 22, 100, 101)],
+            "valence_unified_labels": [(a, b) for a in (10200, 10204) for b in (10200, 10204)],
+            "non_singlet_unified_labels": [(10103, 0), (10203, 0), (10102, 0), (10202, 0)],
+        }
+        for name, want_t in lab_tabs.items():
+            got_t = [tuple(int(x) for x in t) for t in getattr(br, name, ())]
+            if sorted(got_t) != sorted(want_t) or len(set(got_t)) != len(got_t):
+                res.fail(f"tables/sector-label-table/{name}", f"{name}={got_t} expected (any order) {want_t}")
+        # the pids reserved for the matching of the heavy quark collide with nothing
+        hp, hm = getattr(br, "matching_hplus_pid", None), getattr(br, "matching_hminus_pid", None)
+        used = set(B.ALL_PIDS) | set(B.EVOL_PID.values()) | set(B.UNI_PID.values()) | set(NS_PIDS.values()) | {10204, 0}
+        if (hp, hm) != (90, 91) or hp == hm or {hp, hm} & used:
+            res.fail("tables/matching-pids", f"matching_hplus_pid={hp} matching_hminus_pid={hm}: expected 90, 91 (distinct from {sorted(used)})")
+    # intrinsic unified label table: for every nf the 14 labels of the documented intrinsic unified basis
+    if qed:
+        for nf in NFS:
+            try:
+                got_l = list(br.intrinsic_unified_evol_labels(nf))
+            except Exception as e:  # noqa
+                res.fail(f"{sig}/intrinsic-labels/nf={nf}", f"intrinsic_unified_evol_labels({nf}) raised {type(e).__name__}: {e}")
+                continue
+            want_l = B.intrinsic_labels(nf, True)
+            if sorted(got_l) != sorted(want_l) or len(got_l) != 14 or len(set(got_l)) != 14:
+                res.fail(
+                    f"{sig}/intrinsic-labels/nf={nf}",
+                    f"intrinsic_unified_evol_labels({nf})={got_l} expected (any order) {want_l}",
+                )
+                continue
+            # the labelled distributions span the 14 partons (documented content of each label)
+            rows_l = [B.vec(B.intrinsic_def(l, nf, True), order) for l in got_l]
+            if B.rank(rows_l) != 14:
+                res.fail(f"{sig}/intrinsic-labels/nf={nf}", f"labels {got_l}: documented contents have rank {B.rank(rows_l)} < 14")
     # every evolving distribution is the source of exactly one diagonal member
     diag = [a for lab, ms in want_sec.items() if B.is_diagonal(ms) for a, _ in ms]
     assert sorted(diag) == sorted(l for l in want_labels if qed or l != "ph"), diag
@@ -306,7 +349,8 @@ def run(ctx):
     ctx.run_cases(cases, evaluate)
     ctx.exhaustive = True
     ctx.rule = (
-        "the complete finite domain of the statement in both tiers: 2 rotation tables; nf 3-6 x (7 QCD + 24 "
+        "the complete finite domain of the statement in both tiers: 2 rotation tables (+ non-singlet codes, sector "
+        "label tuples, matching pids; intrinsic unified labels for nf 3-6); nf 3-6 x (7 QCD + 24 "
         "unified) anomalous-dimension sectors, each map applied to all 14 distributions of the intrinsic basis; "
         "nf 3-6 x {QCD, QED} projector families (one map per sector, idempotence, pairwise products, sum on "
         "the active partons); exact rational comparison; non-trivial = sector with at least one active member "
@@ -317,5 +361,8 @@ def run(ctx):
         "floats are identified with the unique rational of denominator <= 10^4 within 1e-12 (max residue recorded)",
         "sector maps must annihilate every distribution of the 14-dimensional intrinsic basis other than their sources "
         "(heavy q+-, and the photon in QCD, belong to no sector)",
-        "QED, nf=3,5: Sigma_Delta/V_Delta accepted in either the documented or the cut-table reading, consistently per map",
+        "QED, nf=3,5: Sigma_Delta/V_Delta only in the documented nd/nu-weighted reading (the cut-table reading is rejected)",
+        "label/pid tables: flavour, evolution and unified tables, sector tables, non_singlet_pids_map (codes typed here), "
+        "intrinsic_unified_evol_labels(nf) for nf 3-6 (as a set of 14 distinct labels, each with a documented flavour "
+        "content, together spanning the 14 partons), matching pids 90/91 distinct from every other pid",
     ]
